@@ -20,8 +20,9 @@
 (*  3. a state machine over stake-pool nodes, provider records, client     *)
 (*     balances and the contract wallet, explored by TLC, which shows that *)
 (*     the algorithms meet the obligations within the bounds, and where    *)
-(*     they do not (deviations of the code as written are NAMED by the     *)
-(*     two boolean constants below).                                       *)
+(*     they did not: the two boolean constants below name two defects the  *)
+(*     checks found in the code; both are repaired, the configurations set *)
+(*     them to FALSE (TRUE reproduces the old behaviour).                  *)
 (***************************************************************************)
 EXTENDS StakePoolOps
 
@@ -34,10 +35,11 @@ CONSTANTS
   MinLock, MaxStake,        \* per-delegate bounds validated at lock (contract config)
   KillNum, KillDen,         \* kill slash fraction
   ShutNum, ShutDen,         \* shutdown slash fraction
-  RandNDropsRemainder,      \* code as written = TRUE: DistributeRewardsRandN credits the service charge
-                            \*   and drops the rest when the selected subset has no stake (DESIGN 7 #15)
-  ShutDownSavesUnderCaller  \* code as written = TRUE: provider.ShutDown saves the slashed stake pool
-                            \*   under the CALLER's id (DESIGN 7 #6)
+  RandNDropsRemainder,      \* TRUE = the code before fix 9508203: DistributeRewardsRandN credited the service
+                            \*   charge and dropped the rest when the selected subset had no stake (DESIGN 7 #15);
+                            \*   FALSE = the code as it is: the call fails ("no stake"), nothing is applied
+  ShutDownSavesUnderCaller  \* TRUE = the code before fix f912f8e: provider.ShutDown saved the slashed stake pool
+                            \*   under the CALLER's id (DESIGN 7 #6); FALSE = the code as it is
 
 Id == Provider \cup Client
 Idx(x) == CHOOSE i \in 1..Len(Ord) : Ord[i] = x
